@@ -1,10 +1,20 @@
 use crate::report::{Cfg, Outcome};
 
 pub mod c01;
+pub mod c18;
+pub mod c19;
+pub mod c20;
+pub mod c21;
+pub mod c22;
 
 pub fn dispatch(cfg: &Cfg) -> Option<Outcome> {
     Some(match cfg.prop.as_str() {
         "C01" => c01::run(cfg),
+        "C18" => c18::run(cfg),
+        "C19" => c19::run(cfg),
+        "C20" => c20::run(cfg),
+        "C21" => c21::run(cfg),
+        "C22" => c22::run(cfg),
         _ => return None,
     })
 }
